@@ -25,7 +25,10 @@ def load_findings(prop):
         return []
     with open(FINDINGS) as f:
         data = json.load(f)
-    return [e for e in data.get("findings", []) if e.get("property") == prop and e.get("status") == "open"]
+    def applies(e):
+        pr = e.get("property")
+        return prop == pr or (isinstance(pr, list) and prop in pr)
+    return [e for e in data.get("findings", []) if applies(e) and e.get("status") == "open"]
 
 
 def matches(entry, viol):
